@@ -33,8 +33,8 @@ ASSUMPTIONS = [
     "cancellation is delivered at the next suspension point (asyncio); the only suspension points of a waiting "
     "wait_until are the queue get / the future",
     "no occurrence coincides with a deadline (grid of the generator: NoTies hypothesis of the theorems)",
-    "state triggers without state_hold / state_hold_false (C05 covers the hold machines); one watched variable whose "
-    "value really changes at every state occurrence",
+    "one watched variable whose value really changes at every state occurrence; state_hold / state_hold_false durations "
+    "never tie with an occurrence or another deadline (grid of the generator)",
     "time-trigger parsing (once(...)) is C06's; here only an absolute instant or now+d reaches the model",
     "MQTT/webhook message delivery into the waiter is the C08 machine; here only their subscription life cycle "
     "(mqtt.async_subscribe replaced by a recorder)",
@@ -87,20 +87,32 @@ def gen_fn(rng, raising):
 # --------------------------------------------------------------------------- generator
 def gen_scenario(rng):
     cfg = {"state": None, "time": None, "event": None, "mqtt": None, "timeout": None}
-    if rng.random() < 0.55:
+    holds = False
+    if rng.random() < 0.6:
         cfg["state"] = {"fn": gen_fn(rng, False), "check_now": rng.choice([None, None, True, False]),
-                        "parse_ok": rng.random() < 0.95}
+                        "parse_ok": rng.random() < 0.95, "hold": None, "hold_false": None}
+        if rng.random() < 0.5:
+            # state_hold / state_hold_false; the durations never tie with the 0.5 s grid of the history, with the
+            # call instant, a cancellation instant or a time/timeout deadline
+            holds = True
+            r = rng.random()
+            if r < 0.45 or r >= 0.8:
+                cfg["state"]["hold"] = rng.choice([0.45, 1.45, 2.95])
+            if r >= 0.45:
+                cfg["state"]["hold_false"] = rng.choice([0, 0.4, 0.9, 1.6])
+            cfg["state"]["fn"] = [rng.choice(["ge", "gt"]), 3]
+            cfg["state"]["parse_ok"] = rng.random() < 0.97
     if rng.random() < 0.4:
         cfg["time"] = ["abs", rng.randint(0, 8)] if rng.random() < 0.6 else ["rel", rng.choice([1.2, 2.7, 3.2])]
     if rng.random() < 0.55:
         cfg["event"] = {"fn": gen_fn(rng, True) if rng.random() < 0.6 else None, "parse_ok": rng.random() < 0.93}
     if rng.random() < 0.2:
         cfg["mqtt"] = {"parse_ok": rng.random() < 0.65}
-    if rng.random() < 0.5:
-        cfg["timeout"] = rng.choice([0, 0, 1, 2.5, 4])
+    if rng.random() < (0.65 if holds else 0.5):
+        cfg["timeout"] = rng.choice([1, 2.5, 4, 4] if holds else [0, 0, 1, 2.5, 4])
     call = rng.choice([1.1, 2.1])
     tl = []
-    v = rng.randint(0, 6)
+    v = rng.choice([0, 1, 5, 6]) if holds else rng.randint(0, 6)
     v_init = v
     npre = rng.randint(0, 3)
     npost = rng.randint(0, 6)
@@ -109,7 +121,15 @@ def gen_scenario(rng):
     first_post = int(call // 0.5)
     slots_post = sorted(rng.sample([k * 0.5 + 0.25 for k in range(first_post, first_post + 14)], npost))
     for t in slots_pre + slots_post:
-        if rng.random() < 0.5:
+        if holds and rng.random() < 0.8:
+            # histories aimed at the holds: runs of true and false evaluations, true -> true changes included
+            want_true = rng.random() < 0.55
+            pool = [4, 5, 6, 7] if want_true else [0, 1, 2]
+            if rng.random() < 0.04:
+                pool = [ABC]
+            v = rng.choice([x for x in pool if x != v] or [3])
+            tl.append([t, ["s", v]])
+        elif rng.random() < 0.5:
             nv = rng.choice([x for x in [0, 1, 2, 3, 4, 5, 6, 7, ABC] if x != v] if rng.random() < 0.93 else [ABC] if v != ABC else [3])
             v = nv
             tl.append([t, ["s", v]])
@@ -149,6 +169,26 @@ WITNESSES = [
     _w({"time": ["abs", 0], "timeout": 2.5}, [[2.25, ["e", 4]]]),                      # F5 (fixed): expired time + timeout
     _w({"time": ["abs", 0]}, [[2.25, ["e", 4]]]),                                      # expired time trigger alone: none
     _w({"event": {"fn": ["eq", 1], "parse_ok": True}, "time": ["rel", 3.2]}, [[3.25, ["e", 0]]]),   # F6 (fixed 28f0376)
+]
+
+
+def _st(fn, check_now=None, hold=None, hold_false=None):
+    return {"fn": fn, "check_now": check_now, "parse_ok": True, "hold": hold, "hold_false": hold_false}
+
+
+# state_hold against timeout on both sides, true at the call and becoming true later; state_hold_false with a
+# too-short false period followed by true -> true changes (the shapes of the seeded changes C15_3 / C15_4)
+WITNESSES += [
+    _w({"state": _st(["ge", 3], hold=2.95), "timeout": 1}, [], v_init=5),
+    _w({"state": _st(["ge", 3], hold=2.95), "timeout": 1}, [[1.25, ["s", 5]]], v_init=0),
+    _w({"state": _st(["ge", 3], hold=0.45), "timeout": 2.5}, [[1.25, ["s", 5]], [1.75, ["s", 6]]], v_init=0),
+    _w({"state": _st(["ge", 3], hold=1.45), "timeout": 4}, [[1.25, ["s", 5]], [1.75, ["s", 0]], [2.25, ["s", 6]]], v_init=0),
+    _w({"state": _st(["ge", 3], check_now=False, hold_false=0.9)},
+       [[1.25, ["s", 0]], [1.75, ["s", 5]], [2.75, ["s", 6]], [3.25, ["s", 1]], [4.75, ["s", 5]]], v_init=5),
+    _w({"state": _st(["ge", 3], hold_false=0.9), "timeout": 4},
+       [[1.25, ["s", 5]], [1.75, ["s", 0]], [2.25, ["s", 5]], [2.75, ["s", 1]], [3.25, ["s", 6]]], v_init=0),
+    _w({"state": _st(["ge", 3], hold=0.45, hold_false=0.4)},
+       [[1.25, ["s", 5]], [1.75, ["s", 0]], [2.75, ["s", 6]], [3.25, ["s", 7]]], v_init=1),
 ]
 
 
@@ -192,6 +232,10 @@ def call_src(cfg):
         args.append(f"state_trigger={src!r}")
         if st["check_now"] is not None:
             args.append(f"state_check_now={st['check_now']}")
+        if st.get("hold") is not None:
+            args.append(f"state_hold={st['hold']}")
+        if st.get("hold_false") is not None:
+            args.append(f"state_hold_false={st['hold_false']}")
     tm = cfg["time"]
     if tm:
         if tm[0] == "abs":
@@ -354,7 +398,9 @@ def build_line(p, before):
     cfg = p["cfg"]
     st = cfg["state"]
     st_sx = "none" if not st else ["st", fn_sx(state_model_fn(st["fn"])), 0 if st["check_now"] is False else 1,
-                                   1 if st["parse_ok"] else 0]
+                                   1 if st["parse_ok"] else 0,
+                                   "none" if st.get("hold") is None else ms(st["hold"]),
+                                   "none" if st.get("hold_false") is None else ms(st["hold_false"])]
     tm = cfg["time"]
     tm_sx = "none" if not tm else ([tm[0], ms(tm[1])])
     ev = cfg["event"]
@@ -386,12 +432,27 @@ def expected_exit(p):
             raise ValueError()
         return fn_py(st["fn"], v)
 
-    if st and st["check_now"] is not False:
+    # ---- the state condition in the terms of the documentation: the expression has to turn true - after having been
+    # false for at least state_hold_false, when given; the check at the call is exempt - and to stay true for
+    # state_hold.  `cand` = start (and value) of the true period whose hold is running, `false_start` = start of the
+    # current false period.
+    hold = ms(st["hold"]) if st and st.get("hold") is not None else None
+    hf = ms(st["hold_false"]) if st and st.get("hold_false") is not None else None
+    check_now = bool(st) and st["check_now"] is not False
+    cand = None
+    false_start = None
+    if st and (check_now or hf is not None):
         try:
-            if st_eval(v0):
-                return ("ret", call, "state -")
+            b0 = st_eval(v0)
         except Exception:  # pylint: disable=broad-except
             return ("exc", call, "eval")
+        if b0:
+            if check_now:
+                if hold is None:
+                    return ("ret", call, "state -")
+                cand = (call, "-")
+        elif hf is not None:
+            false_start = call
     dls = []
     tm = cfg["time"]
     if tm:
@@ -403,28 +464,54 @@ def expected_exit(p):
     dl = min(dls) if dls else None
     if dl is None and not (st or ev or cfg["mqtt"]):
         return ("ret", call, "none")
+
+    def next_fire():
+        """earliest of the running hold and the time/timeout deadline"""
+        if cand is not None and (dl is None or cand[0] + hold < dl[0]):
+            return (cand[0] + hold, ("ret", cand[0] + hold, f"state {cand[1]}"))
+        if dl is not None:
+            return (dl[0], ("ret", dl[0], dl[2]))
+        return None
+
     for t, it in p["timeline"]:
         tt = ms(t)
         if tt <= call:
             continue
-        if dl is not None and dl[0] < tt:
-            break
+        f = next_fire()
+        if f is not None and f[0] < tt:
+            return f[1]
         if it[0] == "c":
             return ("cancelled", tt, "")
         if it[0] == "s" and st:
             try:
-                if st_eval(it[1]):
-                    return ("ret", tt, f"state {it[1]}")
+                b = st_eval(it[1])
             except Exception:  # pylint: disable=broad-except
                 return ("exc", tt, "eval")
+            if b:
+                if hf is not None:
+                    if false_start is None:
+                        continue                     # not a false -> true transition
+                    dur = tt - false_start
+                    false_start = None
+                    if dur < hf:
+                        continue                     # the false period was too short
+                if cand is None:
+                    if hold is None:
+                        return ("ret", tt, f"state {it[1]}")
+                    cand = (tt, it[1])
+            else:
+                cand = None
+                if hf is not None and false_start is None:
+                    false_start = tt
         if it[0] == "e" and ev:
             try:
                 if ev["fn"] is None or fn_py(ev["fn"], it[1]):
                     return ("ret", tt, f"event {it[1]}")
             except Exception:  # pylint: disable=broad-except
                 return ("exc", tt, "eval")
-    if dl is not None:
-        return ("ret", dl[0], dl[2])
+    f = next_fire()
+    if f is not None:
+        return f[1]
     return ("waiting", 0, "")
 
 
@@ -518,6 +605,13 @@ def extra_coverage(cases):
             args["timeout"] += 1
         if cfg["state"] and cfg["state"]["check_now"] is False:
             args["check_now_false"] += 1
+        if cfg["state"] and cfg["state"].get("hold") is not None:
+            args["state_hold"] = args.get("state_hold", 0) + 1
+            if cfg["timeout"] is not None:
+                k = "hold_longer_than_timeout" if cfg["state"]["hold"] > cfg["timeout"] else "hold_shorter_than_timeout"
+                args[k] = args.get(k, 0) + 1
+        if cfg["state"] and cfg["state"].get("hold_false") is not None:
+            args["state_hold_false"] = args.get("state_hold_false", 0) + 1
         if any(cfg[x] and not cfg[x]["parse_ok"] for x in ("state", "event", "mqtt")):
             args["parse_error"] += 1
     return {"exit_kinds_observed": kinds, "argument_histogram": args}
